@@ -140,10 +140,13 @@ def gen_cases(rng, scale):
                         row.sort()
                     sim += row
                 usew = rng.choice([0, 0, 1])
-                add("c_crps", {"nval": n, "ncol": m, "use_weights": usew, "is_sorted": srt},
-                    B={"obs": [rng.uniform(0, 10) for _ in range(n)], "sim": sim,
-                       "weights_vector": [1.0 / max(n, 1)] * n, "reliability_table": [0.0] * ((m + 1) * 7),
-                       "crps_decompos": [0.0] * 5}, tag=f"n{n}/m{m}")
+                # (`metrics.crps` never passes an ensemble without member: `ncol = 0` is outside every wrapper's
+                # contract — what a kernel does there, and which layer refuses it, is not fixed by the property)
+                if m >= 1:
+                    add("c_crps", {"nval": n, "ncol": m, "use_weights": usew, "is_sorted": srt},
+                        B={"obs": [rng.uniform(0, 10) for _ in range(n)], "sim": sim,
+                           "weights_vector": [1.0 / max(n, 1)] * n, "reliability_table": [0.0] * ((m + 1) * 7),
+                           "crps_decompos": [0.0] * 5}, tag=f"n{n}/m{m}")
                 add("c_ensrank", {"nval": n, "ncol": m}, D={"eps": rng.choice([1e-6, 1e-6, 0.0])},
                     B={"sim": [float(rng.randint(0, 3)) for _ in range(n * m)], "fmat": [0.0] * (n * n),
                        "ranks": [0.0] * n}, tag=f"n{n}/m{m}")
@@ -219,7 +222,7 @@ def gen_cases(rng, scale):
             B={"idxcells_area": cells(rng, ntot, ncell, 0.85), "xypoints": [v if v == v and abs(v) != math.inf else 1.0
                                                                           for v in pts(k)], "weights": [7.0] * k},
             tag=f"cells{ncell}/pts{k}")
-        nv = rng.choice([0, 1, 2, 3, 5])
+        nv = rng.choice([1, 2, 3, 5])         # (an empty polygon is refused by the wrapper's column reduction)
         poly = [v if v == v and abs(v) != math.inf else 1.0 for v in pts(nv, 1.0)]
         px, py = poly[0::2], poly[1::2]
         add("c_inside", {"nprint": rng.choice([0, 1, 2, -1]), "npoints": n, "nvertices": nv}, D={"atol": 1e-10},
